@@ -242,6 +242,8 @@ def run(ctx):
     core.pmap(mg, _chunk, items, nchunks=len(items))
     ctx.extra["items"] = len(items)
     ctx.extra["max_err_over_tol"] = {k: float("%.3g" % v) for k, v in sorted(mg.stats.items())}
+    ctx.extra["violation_keys"] = sorted(k for k, _, _ in ctx.violations)
+    ctx.extra["known_finding_keys"] = sorted(k for k, _ in ctx.known_hits)
     ctx.rule = ("%d (model, autodiff mode) items: contact-free forests (all joint types) with springs/dampers/tendons/actuators/"
                 "sensors, steadily-active limit+frictionloss+connect models, steadily-in-contact scenes; per item a lattice of "
                 "smooth states (qpos lattice x {0, mixed} qvel x in-range ctrl x act); per state 5 probes x 7 parameter blocks "
